@@ -4,7 +4,7 @@
    ./check C08 and ./check C09): invocations = reads of reqCh, responses = writes of respCh.
    C09/Model.v: sequential KV specification and the executable checker `linearizable`;
    C09/Proofs.v: the checker decides the definition `lin_spec`, for every history. *)
-From PGV Require Import C09.Model C09.Proofs C09.Proofs2.
+From PGV Require Import C09.Model C09.Proofs C09.Proofs2 C09.Proofs3.
 From PGV Require Import C08.Proofs1.
 
 (* the checker is sound and complete for the definition of linearizability, for every history *)
@@ -71,6 +71,27 @@ Proof.
   exists p, e. repeat split; auto. intros evs2 s2 H2. apply E. eapply exec_steps; eauto.
 Qed.
 Print Assumptions acknowledged_put_never_lost.
+
+(* ... and the store is linearizable whenever no client request is applied twice: if in the final state no two applied log positions
+   of a server carry the same (client, request number) -- which is the case in every execution in which no client re-sends a request
+   whose first copy gets applied, e.g. without client timeouts -- then the history is linearizable (in the order of the applied log).
+   Any number of servers/clients/keys, crashes, leader changes, message loss; per-link FIFO network. *)
+Theorem linearizable_without_retry : forall cfg evs s,
+  cfg_fifo cfg = true -> exec cfg (init cfg) evs = Some s -> no_dup_applied cfg s -> lin_spec (history s).
+Proof.
+  intros cfg evs s Hf H ND. exact (linearizable_without_retry_lemma cfg s Hf (exec_reachable cfg evs s H) ND).
+Qed.
+Print Assumptions linearizable_without_retry.
+
+(* non-vacuity: the first 19 events of the witness (both Puts applied and acknowledged, the retried copy still in flight) satisfy the
+   hypothesis; after the whole witness they do not (the copy has been applied a second time) *)
+Example without_retry_nonvacuous :
+  match exec w_cfg (init w_cfg) (firstn 19 w_evs), exec w_cfg (init w_cfg) w_evs with
+  | Some s1, Some s2 => no_dup_applied_b w_cfg s1 = true /\ List.length (history s1) = 4 /\ linearizable (history s1) = true /\
+                        no_dup_applied_b w_cfg s2 = false
+  | _, _ => False
+  end.
+Proof. vm_compute. repeat split; reflexivity. Qed.
 
 (* non-vacuity: in the witness execution above both Puts are acknowledged (the theorem applies to them: the history is
    non-linearizable although no acknowledged Put is lost -- the defect is the RE-application of Put(k1,v1)) *)
